@@ -3,6 +3,8 @@ from checks import window_common as W
 
 META = {
     "technique": "Coq proof (induction over arbitrary op sequences on the window state machines) + model/impl differential on the window API and the Engine",
+    "level_text": "Theorems C12_* in coq/theories/Window/Props.v about the executable model of the window state machines, for every op sequence (arrivals in any order, watermark advances, expiry checks, flushes): exact partition (plain and partitioned forms), count windows close with exactly their size, tumbling span (time-ordered ops), session gaps and session closing condition; the model is tied to window.rs / engine/types.rs by comparing every op's output and the final buffer verbatim, on the window API and through Engine programs",
+    "level_note": "Size/duration >= 1 and gap >= 0 in the count/span/gap theorems (size 0 is degenerate and only compared). 'In-order' for the span clause = every arrival timestamp >= earlier arrivals and >= earlier watermark instants. Engine path is add-only and observes windows through count/sum/first/last of x = 2^id; Engine watermark-driven closes and flush_expired_sessions (wall clock) are not exercised. Which key goes to which partition is not judged here (C04). Trusted: Coq kernel + vm_compute, hand-written model (differential tie), harness, Python oracle",
     "design_ref": "DESIGN.md §7 C12, §12 Window",
 }
 
